@@ -104,6 +104,8 @@ type Base struct {
 	TrailingSlash bool     `json:"trailingSlash"`
 	Absolute      bool     `json:"absolute"`
 	ViaVariables  bool     `json:"viaVariables"`
+	// AlsoServers: with Form "flag", the document additionally declares servers whose path the flag overrides.
+	AlsoServers bool `json:"alsoServers,omitempty"`
 }
 
 type Scheme struct {
@@ -385,6 +387,9 @@ func (a ASpec) Document() map[string]any {
 			srv["url"] = p
 		}
 		doc["servers"] = []any{srv, map[string]any{"url": "https://other.example.test/ignored"}}
+	}
+	if a.Base.Form == "flag" && a.Base.AlsoServers {
+		doc["servers"] = []any{map[string]any{"url": "https://api.example.test/srv/overridden/"}, map[string]any{"url": "/other"}}
 	}
 	if a.Security.K == "list" {
 		doc["security"] = secJSON(a.Security)
